@@ -33,11 +33,33 @@ def match_known(known, prop, clause, signature):
   import fnmatch
   import re
   for k in known.get('known', []):
-    if k['property'] != prop or not re.fullmatch(k['obligation_regex'], clause):
+    props = k['property'] if isinstance(k['property'], list) else [k['property']]
+    if prop not in props or not re.fullmatch(k['obligation_regex'], clause):
       continue
     if re.search(k['signature_regex'], signature or ''):
       return k
   return None
+
+
+class StandinProxy:
+  """the stand-in runs in a fresh interpreter: numeric code is slow next to the verifier's large heap, and a crash of the
+  stand-in must not take the check down"""
+  def __init__(self, prop):
+    self.prop = prop
+
+  def _call(self, *args, timeout=3000):
+    import subprocess
+    out = subprocess.run([sys.executable, os.path.join(HERE, 'standins', 'runner.py')] + [str(a) for a in args],
+                         capture_output=True, text=True, timeout=timeout, cwd=HERE)
+    if '@@RESULT@@' not in out.stdout:
+      raise RuntimeError('stand-in %s failed:\n%s' % (self.prop, (out.stderr or out.stdout)[-3000:]))
+    return json.loads(out.stdout.split('@@RESULT@@')[-1])
+
+  def run(self, tier, seed):
+    return self._call('run', self.prop, tier, seed)
+
+  def replay_clause(self, cid, fail, seed):
+    return self._call('replay', self.prop, 'quick', seed, cid, json.dumps(fail, default=str), timeout=900)
 
 
 def write_replay(prop, name, payload):
@@ -66,6 +88,7 @@ def main():
   known = load_known()
   prog = Program()
   known_obls = 0
+  replay_cache = {}
   violations = []          # (clause, payload)
   known_hits = []
   undecided = []
@@ -91,11 +114,8 @@ def main():
       undecided.append((u['unit'], 'unit generated zero obligations (vacuity guard)'))
   standin = None
   mod = None
-  try:
-    mod = importlib.import_module('standins.' + prop.lower())
-  except ModuleNotFoundError as e:
-    if 'standins' not in str(e):
-      raise
+  if os.path.exists(os.path.join(HERE, 'standins', prop.lower() + '.py')):
+    mod = StandinProxy(prop)
   for cid, c in sorted(clauses.items()):
     if c['status'] == 'discharged':
       continue
@@ -103,23 +123,29 @@ def main():
     sig = ' | '.join(str(f.get('info', {}).get('info') or f.get('info', {}).get('where') or '') for f in c['fails'])
     payload = dict(property=prop, obligation=cid, status=c['status'], solver_output=fail, tree=prog.tree_hash(),
                    failing_input=None)
-    # replay: ask the stand-in harness for a concrete failing input of this clause on the REAL code
-    rep = None
-    if mod is not None and hasattr(mod, 'replay_clause'):
-      try:
-        rep = mod.replay_clause(cid, fail, seed)
-      except Exception:
-        rep = dict(error=traceback.format_exc())
-    if rep and rep.get('failing_input') is not None:
-      payload['failing_input'] = rep['failing_input']
-      payload['observed'] = rep.get('observed')
-    elif rep:
-      payload['replay_note'] = rep
     k = match_known(known, prop, cid, str(sig))
     if k is not None:
       known_hits.append((k, cid))
       known_obls += len(c['fails'])
       continue
+    # replay: ask the stand-in harness for a concrete failing input of this clause on the REAL code
+    rep = None
+    if mod is not None and hasattr(mod, 'replay_clause'):
+      rkey = cid.split('[')[0] + '/' + cid.split('/')[-1]
+      if rkey in replay_cache:
+        rep = replay_cache[rkey]
+      else:
+        try:
+          rep = mod.replay_clause(cid, fail, seed)
+        except Exception:
+          rep = dict(error=traceback.format_exc())
+        replay_cache[rkey] = rep
+    if rep and rep.get('failing_input') is not None:
+      payload['failing_input'] = rep['failing_input']
+      payload['observed'] = rep.get('observed')
+    elif rep:
+      payload['replay_note'] = rep
+
     if c['status'] == 'unknown' and payload['failing_input'] is None:
       undecided.append((cid, 'solver returned unknown (%s) and no failing input was found' % fail.get('reason')))
       continue
@@ -145,7 +171,7 @@ def main():
   # ---- report ---------------------------------------------------------------------------------------
   seen_known = set()
   for k, cid in known_hits:
-    key = (k['property'], k['id'])
+    key = (prop, k['id'])
     if key in seen_known:
       continue
     seen_known.add(key)
